@@ -24,5 +24,9 @@ func (p *Prog) allTopLevel() []string {
 
 func checkC05(c *Check) {
 	c.checkBounds("C05.1", c.P.allTopLevel(), 120)
+	c.timerDiscipline("C05.1 nil-dereference")
+	c.blockingInventory("C05.2 interruptible-waits")
+	c.dialSingleResult("C05.2 dial-result")
+	c.checkSpawnJoin("C05.2 spawn-join")
 	_ = ssa.BuilderMode(0)
 }
